@@ -545,3 +545,93 @@ theorem logAndApply_disc (m : Mem) (d : Disk) (op : Op Bytes) (raw : RawOp)
     · exact ite_fst_P (P := Disc) _ _ _ (checkpointScript_disc _ _ _) trivial
 
 end CasModel
+
+namespace CasModel
+
+/-- no file claims more synced bytes than it has -/
+def SyncLe (d : Disk) : Prop := ∀ f x, d.get f = some x → x.synced ≤ x.data.length
+
+theorem SyncLe.apply (d : Disk) (hw : d.WF) (h : SyncLe d) (e : Ev) : SyncLe (d.apply e) := by
+  intro f x hx
+  cases e with
+  | mkdir p => rw [Disk.get_mkdir] at hx; exact h f x hx
+  | mkdirTree => exact h f x hx
+  | flock => exact h f x hx
+  | creat g t =>
+    rw [Disk.get_creat] at hx
+    by_cases c : f = g
+    · subst c
+      simp only [↓reduceIte] at hx
+      cases hg : d.get f with
+      | none => simp only [hg, Option.some.injEq] at hx; subst hx; simp
+      | some y =>
+        simp only [hg] at hx
+        cases t with
+        | true => simp only [↓reduceIte, Option.some.injEq] at hx; subst hx; simp
+        | false => simp only [Bool.false_eq_true, ↓reduceIte, Option.some.injEq] at hx; subst hx; exact h f y hg
+    · simp only [c, ↓reduceIte] at hx; exact h f x hx
+  | write g bs =>
+    rw [Disk.get_write] at hx
+    by_cases c : f = g
+    · subst c
+      simp only [↓reduceIte] at hx
+      cases hg : d.get f with
+      | none => simp [hg] at hx
+      | some y =>
+        simp only [hg, Option.map_some, Option.some.injEq] at hx
+        subst hx
+        have := h f y hg
+        simp only [List.length_append]; omega
+    · simp only [c, ↓reduceIte] at hx; exact h f x hx
+  | sync g =>
+    rw [Disk.get_sync] at hx
+    by_cases c : f = g
+    · subst c
+      simp only [↓reduceIte] at hx
+      cases hg : d.get f with
+      | none => simp [hg] at hx
+      | some y => simp only [hg, Option.map_some, Option.some.injEq] at hx; subst hx; simp
+    · simp only [c, ↓reduceIte] at hx; exact h f x hx
+  | unlink g =>
+    rw [Disk.get_unlink d hw] at hx
+    by_cases c : f = g
+    · simp [c] at hx
+    · simp only [c, ↓reduceIte] at hx; exact h f x hx
+  | rename a b =>
+    rw [Disk.get_rename d hw] at hx
+    cases hga : d.get a with
+    | none => simp only [hga] at hx; exact h f x hx
+    | some y =>
+      simp only [hga] at hx
+      by_cases cb : f = b
+      · simp only [cb, ↓reduceIte, Option.some.injEq] at hx; subst hx; exact h a y hga
+      · simp only [cb, ↓reduceIte] at hx
+        by_cases ca : f = a
+        · simp [ca] at hx
+        · simp only [ca, ↓reduceIte] at hx; exact h f x hx
+
+theorem SyncLe.applyAll (d : Disk) (hw : d.WF) (h : SyncLe d) (evs : List Ev) : SyncLe (d.applyAll evs) := by
+  induction evs generalizing d with
+  | nil => exact h
+  | cons e es ih =>
+    rw [Disk.applyAll_cons]
+    exact ih _ (Disk.apply_WF d hw e) (h.apply d hw e)
+
+/-- after a power loss that hits EVERY file, what is left is fully synced -/
+theorem dur_of_full_loss (d : Disk) (h : SyncLe d) : Dur (d.powerLoss (fun _ => true)) ∧
+    SyncLe (d.powerLoss (fun _ => true)) := by
+  have key : ∀ f x, (d.powerLoss (fun _ => true)).get f = some x → x.synced = x.data.length := by
+    intro f x hx
+    rw [powerLoss_get] at hx
+    cases hg : d.get f with
+    | none => simp [hg] at hx
+    | some y =>
+      simp only [hg, Option.map_some, ↓reduceIte, Option.some.injEq] at hx
+      subst hx
+      have := h f y hg
+      simp only [List.length_take]
+      omega
+  exact ⟨⟨fun i x hx => key _ x hx, fun x hx => key _ x hx, fun x hx => key _ x hx⟩,
+    fun f x hx => by rw [key f x hx]; exact Nat.le_refl _⟩
+
+end CasModel
